@@ -25,6 +25,7 @@ From FB.Proofs Require Import FrameLaws CleanLaws RollbackLaws RollbackDirsMain.
    (Gen/BookGen.v, regenerated on every run); a change of those sources that the model does not follow breaks this import *)
 From FB.Proofs Require BookGenLaws.
 From FB.Proofs Require CacheGenLaws.   (* T1g: the model routines are equal to the translation of the source (Gen/CacheGen.v) *)
+From FB.Proofs Require DriverGenLaws.   (* T1g: _build, _roll_back, _commit, clean, _make_dirs, _make_room, FileBackups = Model/Build.v, Builder.v (Gen/DriverGen.v) *)
 Import ListNotations.
 
 Theorem C02_rollback_state : forall cf nm vers svers root w w' e (P : path -> Prop),
